@@ -324,6 +324,24 @@ def make_numpy(interp):
             return SymMatrix(sh[0], sh[1], lambda r, c: 0, name="zerosM")
         raise EngineError("np.zeros with %d dims" % len(sh))
 
+    def np_concatenate(arrs, axis=0):
+        """np.concatenate of 1-D arrays: element i comes from the k-th array with offset i - (L_0 + ... + L_{k-1})"""
+        arrs = list(arrs) if isinstance(arrs, (list, tuple)) else _as_list(arrs)
+        if not arrs or not all(isinstance(a_, SymArray) and not isinstance(a_, Sym2D) for a_ in arrs):
+            raise EngineError("np.concatenate of something else than 1-D arrays")
+        ats = [a_._snapshot_at() for a_ in arrs]
+        lens = [a_.length for a_ in arrs]
+        total = lens[0]
+        for L in lens[1:]:
+            total = T.add(total, L)
+
+        def at(i, k=0, off=0):
+            if k == len(arrs) - 1:
+                return ats[k](T.sub(i, off))
+            end = T.add(off, lens[k])
+            return A.guarded(T.lt(i, end), lambda: ats[k](T.sub(i, off)), lambda: at(i, k + 1, end))
+        return SymArray(total, at, name="concatenate")
+
     def np_shape(a):
         if isinstance(a, Sym2D):
             return (len(a.rows), a.rows[0].length)
@@ -481,7 +499,7 @@ def make_numpy(interp):
     linalg = I.NativeNS("numpy.linalg", {"solve": I.Builtin("linalg.solve", lambda M, b: linalg_solve(M, b))})
 
     table = {
-        "zeros": zeros, "shape": np_shape, "divide": np_divide, "zeros_like": zeros_like, "ones": ones, "full_like": full_like, "array": array,
+        "zeros": zeros, "concatenate": np_concatenate, "shape": np_shape, "divide": np_divide, "zeros_like": zeros_like, "ones": ones, "full_like": full_like, "array": array,
         "where": where, "arange": arange, "linspace": linspace, "append": append, "repeat": repeat,
         "diag": diag, "einsum": einsum, "min": np_min, "max": np_max, "amax": np_max, "amin": np_min, "average": average, "spacing": spacing,
         "ndim": ndim, "deg2rad": deg2rad, "square": square, "vstack": vstack, "isnan": isnan, "any": np_any,
